@@ -19,7 +19,7 @@ BUILTINS = {'slice', 'transpose', 'split', 'full_like', 'solve', 'arange', 'atle
             'empty_like', 'zeros_like', 'sum', 'tuple', 'list', 'isinstance', 'print', 'zip', 'floor', 'sqrt',
             'exp', 'tanh', 'cosh', 'cos', 'sin', 'RuntimeError', 'ValueError', 'AssertionError', 'NotImplementedError',
             'str', 'reversed', 'sorted', 'all', 'any', 'prod', 'pi', 'mod', 'fabs', 'log', 'dict', 'set'}
-SPEC_BUILTINS = {'comm_size', 'comm_rank', 'peer_send', 'flatidx', 'prodof', 'coll_trace', 'interp_val', 'holds', 'valid', 'field_of', 'layout_of', 'same_content', 'distinct_bufs', 'same_buf', 'bufview', 'name_id', 'split', 'uknots', 'forall', 'exists', 'sum_', 'implies', 'and_', 'iff', 'old', 'ite_', 'shape', 'let', 'select', 'real', 'fdiv', 'fmod', 'trunc'}
+SPEC_BUILTINS = {'gfield', 'comm_size', 'comm_rank', 'peer_send', 'flatidx', 'prodof', 'coll_trace', 'interp_val', 'holds', 'valid', 'field_of', 'layout_of', 'same_content', 'distinct_bufs', 'same_buf', 'bufview', 'name_id', 'split', 'uknots', 'forall', 'exists', 'sum_', 'implies', 'and_', 'iff', 'old', 'ite_', 'shape', 'let', 'select', 'real', 'fdiv', 'fmod', 'trunc'}
 
 import vf.execu as _execu
 _execu.BUILTINS = BUILTINS
@@ -105,6 +105,10 @@ class Engine(Exec):
             cid = self.comm_consts(st, args[0])[0]
             PEER = V.uf('peer_send', INT, INT, z3.ArraySort(INT, REAL))
             return SpecArr(PEER(z3.IntVal(cid), ZI(args[1])), [None], REAL)
+        if name == 'gfield':
+            # the global field of a distributed array: an uninterpreted function of the global index (one per rank)
+            G = V.uf('gfield%d' % len(args), *([INT] * len(args) + [REAL]))
+            return G(*[ZI(a) for a in args])
         if name == 'flatidx':
             from .flat import flat_term
             return simp(flat_term(list(args[0]), list(args[1])))
@@ -371,6 +375,12 @@ class Engine(Exec):
 
         def outside(k):
             return f_imp(V.b_or(compare('Lt', k, off), compare('GtE', k, off + n)), z3.Select(new, k) == z3.Select(old, k))
+        send_heap, send_off = st.heap[send.base.aid], ZI(send.spec[0][1])
+
+        def mine(k):
+            return f_imp(b_and(compare('GtE', k, 0), compare('Lt', k, send.shape[0])),
+                         z3.Select(PEER(z3.IntVal(cid), me), k) == z3.Select(send_heap, send_off + k))
+        st.qfacts.append(QFact(1, mine, 'Alltoall: my own send buffer is what member me sends'))
         st.qfacts.append(QFact(R + 1, moved, 'Alltoall: chunk r of the receive buffer = chunk me of member r'))
         st.qfacts.append(QFact(1, outside, 'Alltoall: outside the receive buffer'))
         return None
@@ -427,7 +437,8 @@ class Engine(Exec):
         if ax:
             # universally valid facts about the uninterpreted function: global axioms (not path facts, which expression
             # evaluation may discard)
-            self.ctx.add_axioms(ax(ZR(a), t))
+            for c in ax(ZR(a), t):
+                st.pc.append(c)
         return t
 
     # ------------------------------------------------------------------
